@@ -1,6 +1,7 @@
 package driver
 
 import (
+	"strings"
 	"context"
 	"fmt"
 	"net/http"
@@ -157,6 +158,13 @@ func RunConcurrent(reg Registry, rec *Recorder, g Group) {
 		tag int
 		c   concCall
 	}
+	var sharedCalls []concCall
+	for _, c := range callable {
+		if strings.Contains(c.op.ID(), "/shared/") {
+			sharedCalls = append(sharedCalls, c)
+		}
+	}
+	sharedResp = sync.Map{} // a fresh store per round
 	var jobs [][]job
 	n := 0
 	r := newRng(cfg.Seed)
@@ -172,7 +180,12 @@ func RunConcurrent(reg Registry, rec *Recorder, g Group) {
 			if len(cfg.Preflights) > 0 {
 				ids = append(ids, id+"p")
 			}
-			js = append(js, job{id: id, tag: cfg.Round*100000 + n, c: callable[r.Intn(len(callable))]})
+			cc := callable[r.Intn(len(callable))]
+			if k == 0 && len(sharedCalls) > 0 {
+				// every goroutine starts with an operation that answers from one stored value: they all encode it at once
+				cc = sharedCalls[gi%len(sharedCalls)]
+			}
+			js = append(js, job{id: id, tag: cfg.Round*100000 + n, c: cc})
 		}
 		jobs = append(jobs, js)
 	}
@@ -198,6 +211,10 @@ func RunConcurrent(reg Registry, rec *Recorder, g Group) {
 				}
 				rec.Emit(Event{"ev": "Call", "case": j.id, "op": j.c.op.ID(), "sent": ProjectParams(params, false)})
 				script := Script{Parse: true, ReadBody: true, Random: true, Seed: int64(j.tag), Code: 210 + j.tag%80, Unique: j.tag, Yield: true}
+				if strings.Contains(j.c.op.ID(), "/shared/") {
+					// operations under /shared/ answer every request from one stored value
+					script.Shared = true
+				}
 				ctx := context.WithValue(context.Background(), keyCase, &caseCtx{id: j.id, script: script})
 				ret := Event{"ev": "Return", "case": j.id, "panic": ""}
 				func() {
